@@ -110,7 +110,7 @@ def replay(w, ctx):
 def floors(m, tier):
     out = []
     c, cov = m['counters'], m['cover']
-    need = 6000 if tier == 'quick' else 120000
+    need = 3500 if tier == 'quick' else 80000
     if c.get('files_checked', 0) < need:
         out.append('only %d files checked' % c.get('files_checked', 0))
     if cov.get('list_longer_than_1000', 0) < 5:
